@@ -119,13 +119,14 @@ def run(m: Model, r: Report, tier: str) -> None:
     if len(recs) != 1:
         raise AnalysisError(f"{pj.qualname}: the decoded JSON record variable was not found ({sorted(recs)})")
     REC = recs.pop()
-    rkeys = {n.slice.value for n in ast.walk(pj.node) if isinstance(n, ast.Subscript) and isinstance(n.slice, ast.Constant) and ast.unparse(n.value) == REC}
+    rkeys = {n.slice.value for n in ast.walk(pj.node) if isinstance(n, ast.Subscript) and isinstance(n.slice, ast.Constant) and ast.unparse(n.value) == REC} | \
+            {n.args[0].value for n in ast.walk(pj.node) if isinstance(n, ast.Call) and ast.unparse(n.func) == f"{REC}.get" and n.args and isinstance(n.args[0], ast.Constant)}
     r.check(rkeys == wfields, "R1", f"{pj.qualname}#keys", f"reader parses {sorted(rkeys)}, writer emits {sorted(wfields)}: "
             f"missing {sorted(wfields - rkeys)}, unknown {sorted(rkeys - wfields)}", loc=pj.loc)
     pr = m.require_class(f"{LOG}.PenlogRecord")
     ctor = [n for n in ast.walk(pj.node) if isinstance(n, ast.Call) and ast.unparse(n.func) == "cls"]
     kw = {k.arg: ast.unparse(k.value) for k in ctor[0].keywords} if ctor else {}
-    bad = [k for k, v in kw.items() if f"{REC}['{k}']" not in v]
+    bad = [k for k, v in kw.items() if f"{REC}['{k}']" not in v and f"{REC}.get('{k}')" not in v]
     r.check(bool(kw) and not bad and set(kw) <= set(pr.class_annots), "R1", f"{pj.qualname}#field-binding",
             f"fields not bound to the key of the same name: {bad}", loc=pj.loc)
 
@@ -168,7 +169,9 @@ def run(m: Model, r: Report, tier: str) -> None:
                 got = miniterp.eval_expr(k.value, {REC: ({k.arg: "VALUE"} if present else {})}, _wrap_oracle)
             except miniterp.Raised:
                 got = "<KeyError>"
-            want = "VALUE" if present else (None if isinstance(k.value, ast.IfExp) else "<KeyError>")
+            ann_ = pr.class_annots.get(k.arg)
+            optional = ann_ is not None and "None" in ast.unparse(ann_)
+            want = "VALUE" if present else (None if optional else "<KeyError>")
             if got != want:
                 badk.append(f"{k.arg} {'present' if present else 'absent'} -> {got!r}")
     r.check(not badk, "R1", f"{pj.qualname}#present-absent", f"fields are read back as {badk}; a stored value must be returned, a missing optional key must give None", loc=pj.loc)
@@ -367,15 +370,38 @@ def run(m: Model, r: Report, tier: str) -> None:
     jprio = [ast.unparse(k.value) for n in ast.walk(fmt.node) if isinstance(n, ast.Call) and ast.unparse(n.func) == "_PenlogRecordV2" for k in n.keywords if k.arg == "priority"]
     r.check(pexpr == "PenlogPriority.from_level(record.levelno).value" and jprio == [pexpr], "R3", f"{emit.qualname}#same-priority",
             f"prefix priority is `{pexpr}`, JSON priority is `{jprio}`: the reader filters on the prefix, so both must be the same value", loc=emit.loc)
-    pre = [n for n in walk_no_nested(emit.node) if isinstance(n, ast.Assign) and isinstance(n.value, ast.JoinedStr)]
-    okp = False
-    if pre:
-        vals = pre[0].value.values
-        okp = len(vals) == 4 and isinstance(vals[0], ast.Constant) and vals[0].value == "<" and isinstance(vals[1], ast.FormattedValue) and \
-            ast.unparse(vals[1].value) == pvar and isinstance(vals[2], ast.Constant) and vals[2].value == ">" and ast.unparse(vals[3].value) == "self.format(record)"
-    reassigned = [n for n in walk_no_nested(emit.node) if isinstance(n, (ast.Assign, ast.AugAssign)) and n not in pa and
-                  any(ast.unparse(t) == pvar for t in (n.targets if isinstance(n, ast.Assign) else [n.target]))]
-    r.check(okp and not reassigned, "R3", f"{emit.qualname}#prefix-format", "the line must be '<' + priority + '>' + JSON, with the priority unmodified", loc=emit.loc)
+    # what emit() writes, evaluated for a formatter result with and without trailing newline and two priorities: exactly b"<prio>" + text + b"\n"
+    from sa import miniterp as _mte17
+
+    def emitted(text: str, prio: int):
+        written: list = []
+
+        def orc(call, env_):
+            f_ = ast.unparse(call.func)
+            if f_ == "self.format":
+                return text
+            if f_ == "PenlogPriority.from_level":
+                return _mte17.Obj(value=prio)
+            if f_ == "self.file.write" and len(call.args) == 1:
+                written.append(_mte17.eval_expr(call.args[0], env_, orc))
+                return None
+            if isinstance(call.func, ast.Attribute) and call.func.attr == "encode" and not call.args:
+                v_ = _mte17.eval_expr(call.func.value, env_, orc)
+                return v_.encode() if isinstance(v_, str) else NotImplemented
+            return NotImplemented
+        _mte17.run_function(emit.node, {"record": "REC", "record.levelno": 20}, orc)
+        return written
+    emit_bad, emit_unknown = [], None
+    try:
+        for text_, prio_ in (("{}", 6), ("{}\n", 6), ("{\"a\": 1}", 3), ("", 7)):
+            got_ = emitted(text_, prio_)
+            want_ = [f"<{prio_}>{text_.rstrip(chr(10))}\n".encode()] if not text_.endswith("\n\n") else None
+            if got_ != want_:
+                emit_bad.append(f"format() -> {text_!r}, priority {prio_}: writes {got_}")
+    except (AnalysisError, _mte17.Raised) as ex_:
+        emit_unknown = str(ex_)
+    r.check3(None if emit_unknown else not emit_bad, "R3", f"{emit.qualname}#prefix-format",
+             f"{emit_bad[:2]}: the line must be '<' + priority + '>' + JSON, with the priority unmodified", loc=emit.loc, unknown_msg=f"emit is outside the evaluated language: {emit_unknown}")
     pp = m.require_function(f"{LOG}.PenlogRecord.parse_priority")
     sp = ast.unparse(pp.node)
     r.check("data.startswith(b'<')" in sp and "data[1:data.index(b'>')]" in sp and "return None" in sp, "R3", f"{pp.qualname}#prefix-parse",
@@ -427,9 +453,8 @@ def run(m: Model, r: Report, tier: str) -> None:
             raise AnalysisError(f"{fmt.qualname}: the object passed to json.dumps ({ast.unparse(obj)[:60]}) is neither dataclasses.asdict(record) nor a filter over it")
         r.check(not dropped, "R1", f"{fmt.qualname}#all-keys-written", f"fields with the values {dropped} are left out of the JSON line: the reader indexes data / priority / "
                 "module / host / datetime / version unconditionally, so e.g. an empty message makes the whole log unreadable", loc=fmt.loc)
-    se = m.mtext(emit)
-    r.check("if not _L.endswith('\\n'):" in se and "_L += '\\n'" in se and "self.file.write(_L.encode())" in se, "R4", f"{emit.qualname}#terminator",
-            "each record must be written as one newline-terminated line", loc=emit.loc)
+    r.check3(None if emit_unknown else not emit_bad, "R4", f"{emit.qualname}#terminator", f"{emit_bad[:2]}: each record must be written as one newline-terminated line",
+             loc=emit.loc, unknown_msg=f"emit is outside the evaluated language: {emit_unknown}")
     pfs = m.require_function(f"{LOG}.PenlogReader._parse_file_structure")
     r.check("self.file_mmap.readline()" in ast.unparse(pfs.node) and "self._record_offsets.append(self.file_mmap.tell())" in ast.unparse(pfs.node), "R4",
             f"{pfs.qualname}#line-index", "the offset table must index line starts", loc=pfs.loc)
